@@ -111,6 +111,11 @@ impl<'p> Store<'p> {
         }
         for f in self.faults {
             if f.step == k {
+                if f.kind == WKind::Panic {
+                    self.fired.push(FiredW { step: k, kind: f.kind, what, depth });
+                    self.log.u64(0xFA18);
+                    panic!("injected panic at write step {}", k);
+                }
                 if f.kind == WKind::Permanent {
                     self.permanent = true;
                 }
